@@ -359,10 +359,13 @@ def c17_run(pid, tier, seed):
         ah, io = vf.build_ah(b), vf.build_ioh(b)
         res = []
         for cs, (path, _) in zip(a_sets, a_files):
-            res.append(algo.run_ah_on_file(pid, "%s-%s" % (cs.name, b), path, ah, seed,
-                                           extra_plan={"families": cs.families} if cs.families else None))
+            ep = {"options": {"recon": True}}
+            if cs.families:
+                ep["families"] = cs.families
+            res.append(algo.run_ah_on_file(pid, "%s-%s" % (cs.name, b), path, ah, seed, extra_plan=ep))
         res.append(algo.run_ah_on_file(pid, "search-files-" + b, sp, ah, seed,
-                                       extra_plan={"families": props_algo.NOLABEL + ["multigraph+weighted classes"]}))
+                                       extra_plan={"families": props_algo.NOLABEL + ["multigraph+weighted classes"],
+                                                   "options": {"recon": True}}))
         for cs, (path, _) in zip(i_sets, i_files):
             res.append(algo.run_ah_on_file(pid, "%s-%s" % (cs.name, b), path, io, seed))
         return b, res
